@@ -28,9 +28,11 @@ Variable cap : nat.
 Variable lam : fev -> N.
 Variable vals : list (N * N).
 Hypothesis Hvals : vals_ok vals.
+Variable J : N -> Prop.
 Variable K : N.
+Hypothesis HJ : forall a, J a -> id_fresh K a.
 Notation nv := (length vals).
-Notation Sim := (Sim lam vals K).
+Notation Sim := (Sim lam vals J K).
 
 Lemma Seg_nil_inv T L B L1 : Seg vals T L B L1 ->
   (forall a, decide node nd_id nd_cr nd_fr nd_spf (fc_n (map snd vals) (ElectionSpec.quorum_of (map snd vals))) (map snd vals)
@@ -50,16 +52,17 @@ Proof.
   cbn [step]. unfold bootstrap. cbn [persist p_epoch p_vals p_ldf p_roots p_conf p_idx]. fold st es.
   set (st0 := {| l_epoch := l_epoch st; l_vals := l_vals st; l_ldf := l_ldf st; l_roots := l_roots st; l_conf := l_conf st;
                  l_idx := l_idx st; l_fcc := []; l_el := el_reset (l_vals st) (l_ldf st + 1); l_ctr := 0 |}).
-  assert (E0 : ES lam vals T Dr es 0 st0 (fun _ => False)).
+  assert (E0 : ES lam vals T Dr es (stale J 0) st0 (fun _ => False)).
   { destruct C as [A Bv Cc D E F G H Ir]. constructor.
     - constructor; auto.
     - intros a b r Hc. discriminate.
     - cbn [st0 l_ldf l_el]. rewrite Bv. apply EI_reset.
     - cbn [st0 l_el]. rewrite Bv. unfold choose_atropos, el_reset. cbn [el_vals el_decided el_frame].
       destruct vals as [|[x w] t]; [cbn in Hnv; lia | reflexivity]. }
-  assert (NT0 : forall m, In m T -> ~ is_temp 0 (nd_id m)).
-  { intros m _ (ep & lm & c & t & Bc & _). lia. }
-  destruct (boot_sim cap lam vals Hvals T Dr es 0 Hff NT0 W (roots_fuel st0) st0 _ [] E0) as [bl [st' [EB [D' [SG' [BO [RR CC]]]]]]].
+  assert (NT0 : forall m, In m T -> ~ stale J 0 (nd_id m)).
+  { intros m Hm [(ep & lm & c & t & Bc & _)|Jm]; [lia|].
+    destruct (node_event vals T Dr m W Hm) as [e0 [He0 [E0' _]]]. apply (proj2 (FR e0 He0)). rewrite E0'. exact Jm. }
+  destruct (boot_sim cap lam vals Hvals T Dr es (stale J 0) Hff NT0 W (roots_fuel st0) st0 _ [] E0) as [bl [st' [EB [D' [SG' [BO [RR CC]]]]]]].
   { unfold roots_fuel. pose proof (cnt_from_le (l_roots st0) (l_ldf st0 + 1)). lia. }
   { exact Hnv. }
   cbn [app] in EB. rewrite EB.
@@ -77,7 +80,7 @@ Qed.
 
 (* ---------- runs with restarts ---------- *)
 Lemma run_sim_r : forall D rs i T Dr B, length rs = length D -> Sim i T Dr B -> codes_ok (snd (add_events vals T D)) ->
-  (forall e, In e D -> id_fresh K (eid (fe e))) -> few_forkers vals (fst (add_events vals T D)) ->
+  (forall e, In e D -> id_fresh K (eid (fe e)) /\ ~ J (eid (fe e))) -> few_forkers vals (fst (add_events vals T D)) ->
   N.of_nat (length D) < 2 ^ 192 -> l_ctr (i_st i) + N.of_nat (length D) < 2 ^ 192 ->
   l_ctr (i_st i) + N.of_nat (length D) <= K ->
   let os := run cap [] sample i (abft_ops_r lam vals rs D) in
@@ -109,10 +112,10 @@ Proof.
         intros rest. cbn [app run]. rewrite ER. reflexivity.
       - exists i, []. split; [exact HS|]. split; [lia|]. split; [constructor|]. split; [reflexivity|]. intros rest. reflexivity. }
     destruct R0 as [i0 [pre [HS0 [Ct0 [Cl0 [Fl0 Run0]]]]]].
-    destruct (build_step cap lam vals Hvals K i0 T Dr B e HS0 PK CR EW NL FO ltac:(cbn [length] in Hctr; lia) ltac:(cbn [length] in HK; lia))
+    destruct (build_step cap lam vals Hvals J K HJ i0 T Dr B e HS0 PK CR EW NL FO ltac:(cbn [length] in Hctr; lia) ltac:(cbn [length] in HK; lia))
       as [i1 [EB [HS1 Ct1]]].
     assert (Hff1 : few_forkers vals (mk_node nv T e :: T)) by (eapply few_forkers_sub; [exact Inc | exact Hff]).
-    destruct (process_step cap lam vals Hvals K i1 T Dr B e HS1 (Hf e (or_introl eq_refl)) PK NL CR EW FO Hff1)
+    destruct (process_step cap lam vals Hvals J K i1 T Dr B e HS1 (proj1 (Hf e (or_introl eq_refl))) (proj2 (Hf e (or_introl eq_refl))) PK NL CR EW FO Hff1)
       as [bl [i2 [EP [HS2 Ct2]]]].
     destruct (IH rs i2 (mk_node nv T e :: T) (e :: Dr) (B ++ map blk_obs bl) Hlen HS2) as [i' [B' [ER [CL HS']]]].
     { rewrite AEs. cbn [snd]. intros r0 Hr0. apply Hc. right. exact Hr0. }
@@ -151,8 +154,8 @@ Proof.
       destruct (add_event vals [] e0) as [T1 r] eqn:AE. destruct (add_events vals T1 D0) as [T2 rsl].
       cbn [snd] in Hacc. assert (Hr : fst r = 0) by (apply Hacc; left; reflexivity). destruct r as [c h]. cbn in Hr. subst c.
       destruct (add_event_accept vals [] e0 T1 h AE) as (_ & _ & _ & CR & _). lia. }
-    destruct (run_sim_r cap lam vals Hvals (N.of_nat (length D)) D rs (start 1 vals) [] [] [] Hlen
-                (Sim_start lam vals Hvals _ Hnv) Hacc Hfresh Hff Hl) as [i' [B' [ER [CL HS]]]].
+    destruct (run_sim_r cap lam vals Hvals (fun _ => False) (N.of_nat (length D)) (fun a (F : False) => match F with end) D rs (start 1 vals) [] [] [] Hlen
+                (Sim_start lam vals Hvals (fun _ => False) (N.of_nat (length D)) (fun a (F : False) => match F with end) Hnv) Hacc (fun e He => conj (Hfresh e He) (fun F => F)) Hff Hl) as [i' [B' [ER [CL HS]]]].
     { cbn [start i_st genesis l_ctr]. lia. }
     { cbn [start i_st genesis l_ctr]. lia. }
     assert (E1 : abft_run_r cap lam rs vals D = reference vals D).
